@@ -305,7 +305,7 @@ def find_if(ctx, fx):
         fn = ctx.fn(f)
         last = f["params"][1]["n"]
         det = []
-        loops = [b for b in fn.blocks.values() if (b.get("term") or {}).get("cls") == "ForStmt"]
+        loops = [b for b in fn.blocks.values() if (b.get("term") or {}).get("cls") in ("ForStmt", "WhileStmt")]
         if len(loops) != 1 or S(lit(loops[0]["term"]["cond"])[0]) != "(i < accum.size())":
             det.append("slots are not scanned over [0, accum.size())")
         i0 = [e for _, e in fn.events(lambda e: e.get("k") == "decl" and e.get("n") == "i")]
